@@ -8,7 +8,7 @@ ROOT = os.path.dirname(HERE)
 # property -> (level category, technique, level text, level note, design ref)
 CHECKS = {
     "C20": ("exploration",
-            "Go race detector over concurrent workloads (reports with a gmsm frame are violations), equality of each concurrent result with its sequential counterpart, porcupine linearizability checks of recorded histories, stream-consistency monitors for concurrent Read/Write/Close and for duplex traffic (multi-record writes) with an injected record fault, concurrent verification on pools holding same-name CAs, ticket decryption during key-list rotation, SM4 mode and GCM helpers under different keys in a tight concurrent loop, Close after a failed write",
+            "Go race detector over concurrent workloads (reports with a gmsm frame are violations), equality of each concurrent result with its sequential counterpart, porcupine linearizability checks of recorded histories, stream-consistency monitors for concurrent Read/Write/Close and for duplex traffic (multi-record writes) with an injected record fault, concurrent verification on pools holding same-name CAs, ticket decryption during key-list rotation, SM4 mode and GCM helpers under different keys in a tight concurrent loop, Close after a failed write, PKCS#7 objects of 70..200 KiB parsed in parallel, a churning client session cache (24 goroutines, 6 names, capacity 2), Writes of up to 256 KiB from concurrent writers",
             "The worker is built with -race and runs: package-level operations on separate data from 2..32 goroutines (sign/verify/encrypt/decrypt/key exchange, SM3, SM4 helpers, GCM, parse + chain verification on shared pools, PKCS#7) compared with sequential results; one shared cipher.Block under mixed Encrypt/Decrypt vs the reference; first use of the curve from 16 goroutines in fresh child processes; one Config serving up to 48 simultaneous handshakes with concurrent ticket-key rotation, shared session cache and pools; porcupine on the LRU session cache and the ticket-key register (many short histories, unique values, 10 s checker timeout = inconclusive); one connection with concurrent tagged writers, a reader and Close at a seeded instant (per-writer FIFO, no duplication, no loss before close, all calls return, Write after Close errors).",
             "Trusted: Go race detector, porcupine v1.3.0, sequential results and /verif/ref as oracles. A clean run speaks only for the interleavings produced (evidence lists goroutine counts and histories).",
             "DESIGN.md §5 C20"),
@@ -18,12 +18,12 @@ CHECKS = {
             "Trusted: ground-truth PKI, /verif/ref TLCP peer. A misconfigured attacker-side endpoint crashing on its own configuration is not judged.",
             "DESIGN.md §5 C08"),
     "C16": ("fault_enumeration",
-            "history workload (scenario templates + random walks) over one client cache and one to three named server configurations (farms, Clone-made members, version caps) with a resumption-model oracle, passive decoding of resumed sessions under the original master secret, and an exhaustive ticket-tampering sweep through the session-state hook",
+            "history workload (scenario templates + random walks) over one client cache and one to three named server configurations (farms, Clone-made members, version caps) with a resumption-model oracle, passive decoding of resumed sessions under the original master secret, an exhaustive ticket-tampering sweep through the session-state hook, forced eviction templates, and scale scenarios (client certificate lists of 33 entries / 35 KB, ticket-key lists of up to 40 keys replaced by short ones)",
             "Generates histories of up to 6 connections interleaved with ticket-key rotations (keep old / replace all), suite-list, ClientAuth and ticket-enable changes and client suite changes, for GMSSL and TLS 1.2; a model classifies every connection as must-resume / must-not-resume / may from the registry of issued tickets and the live key set; both ends' DidResume must agree and match; resumed GMSSL sessions must decode under the original session's master secret; peer identity must equal the original's. Tampering: every byte position (and truncation/extension) of a ticket followed by a connection: never resumed, always a silent full handshake.",
             "Trusted: resumption model from the property text, /verif/ref TLCP decoder. 'may' connections are not judged on DidResume.",
             "DESIGN.md §5 C16"),
     "C06": ("exploration",
-            "configuration-matrix workload with a policy-model oracle, agreement / prefix-stream monitors, a passive reference GM/T 0024 decoder over the tapped wire and key log, crypto/tls as independent peer (with client certificates), seeded write plans, a second connection per ticket-enabled configuration, Config.Clone copies, every row of the suite table, application-protocol lists and certificate selection by server name, default suite lists, a live reference peer whose GCM nonces run independently of its sequence numbers",
+            "configuration-matrix workload with a policy-model oracle, agreement / prefix-stream monitors, a passive reference GM/T 0024 decoder over the tapped wire and key log, crypto/tls as independent peer (with client certificates), seeded write plans, a second connection per ticket-enabled configuration, Config.Clone copies, every row of the suite table, application-protocol lists and certificate selection by server name, default suite lists, a live reference peer whose GCM nonces run independently of its sequence numbers, sessions of 66000 records each way against crypto/tls",
             "Runs gmtls client/server pairs over an in-memory tapped transport for the matrix server mode x client kind x suites x preference x ClientAuth x client certificate x certificate source x tickets (GM part full-factorial in thorough), plus TLS 1.0-1.2 suites against crypto/tls in both roles; a policy model from the property text says must-complete / must-fail / unspecified; both ends must agree on ConnectionState and ExportKeyingMaterial; position-tagged payloads (to 200 KiB, seeded fragment plans, both directions concurrently) must arrive as exact prefixes; every GMSSL session is re-derived by the reference decoder (record MAC/tag under index-as-sequence-number, Finished values, ServerKeyExchange signature, pre-master recovery, plaintext equality).",
             "Trusted: policy model, /verif/ref TLCP decoder (self-consistent reading of GM/T 0024 over ref SM2/SM3/SM4, not certified), Go crypto/tls. ECDHE-SM2 completion is unspecified.",
             "DESIGN.md §5 C06"),
@@ -39,16 +39,16 @@ CHECKS = {
             "DESIGN.md §5 C15"),
     "C18": ("fault_enumeration",
             "derivation catalogue per decoder (byte edits, TLV rewrites, structure-preserving DER tree edits, depth-2 edits; recorded handshake flights through canned connections with framing-preserving message edits) executed under panic capture, per-call thread-CPU budget with a CPU-based hang watcher, and serial allocation sampling",
-            "For each of ~55 decoders of untrusted bytes (incl. the 16 TLS handshake message decoders, session state and ticket decryption through the verif hooks) takes valid encodings produced by the library and derives every truncation, single-byte substitutions from {00,01,7f,80,ff,b^1,b^80} (all seven in thorough), every TLV length rewritten to {0,len-1,len+1,0x80,0x84ffffffff,0x847fffffff}, universal tag swaps, BER nesting to depth 10^4 and, under a 32 MiB goroutine-stack cap, 2*10^5 / 10^6 (definite, indefinite, unterminated), flat constructed values with up to 5*10^5 members, empty and random inputs; each call runs in a child process with recover(), a thread-CPU budget of 2 s + 1 us/byte, and a watcher that turns 20 s of CPU in one call into a verdict; allocations are sampled serially against 64*len + 8 MiB.",
+            "For each of ~55 decoders of untrusted bytes (incl. the 16 TLS handshake message decoders, session state and ticket decryption through the verif hooks) takes valid encodings produced by the library and derives every truncation, single-byte substitutions from {00,01,7f,80,ff,b^1,b^80} (all seven in thorough), every TLV length rewritten to {0,len-1,len+1,0x80,0x84ffffffff,0x847fffffff}, universal tag swaps, BER nesting to depth 10^4 and, under a 32 MiB goroutine-stack cap, 2*10^5 / 10^6 (definite, indefinite, unterminated), flat constructed values with up to 5*10^5 members, valid encodings widened to about 1 MiB (up to 70000 extensions / entries), a 2^24-byte primitive, empty and random inputs; a live-heap retention monitor over series of distinct bloated inputs per decoder; each call runs in a child process with recover(), a thread-CPU budget of 2 s + 1 us/byte, and a watcher that turns 20 s of CPU in one call into a verdict; allocations are sampled serially against 64*len + 8 MiB.",
             "Trusted: Go runtime (recover, getrusage, MemStats). Bytes encoding a password-stretching iteration count are not mutated (exempt by the property).",
             "DESIGN.md §5 C18"),
     "C10": ("exploration",
-            "reference path validator over generator ground truth (no cryptography, none of gmsm's parser) compared with Verify on generated PKI topologies; every returned chain checked link by link; pools shared across queries, re-keyed CA and look-alike scenarios, certificates re-issued in another extension order by the reference signer, forced cross-certified / usage-restricted / subdomain-constrained topologies and X.509 v1/v2 intermediates",
+            "reference path validator over generator ground truth (no cryptography, none of gmsm's parser) compared with Verify on generated PKI topologies; every returned chain checked link by link; pools shared across queries, re-keyed CA and look-alike scenarios, certificates re-issued in another extension order by the reference signer, forced cross-certified / usage-restricted / subdomain-constrained topologies, X.509 v1/v2 intermediates, a 120-times re-keyed CA with a forged same-name certificate at swept pool positions, 301-name leaves, instants beyond the year 2262",
             "Generates PKI topologies (roots, re-issued/cross-signed/looping intermediates, same-name impostor keys, leaves) that are valid except for 0-4 injected faults (expired, not yet valid, non-CA, no basic constraints, path length, key usage, name constraints, corrupted signature, impostor, EKU, critical extension, missing from pool) and queries (time incl. boundary instants, host classes, usages, pool insertion order) perturbed in one dimension; Verify must return a chain exactly when the reference finds one inside the region the statement determines (32 interpretation variants must agree), and every returned chain is checked against ground truth.",
             "Trusted: generator ground truth; gmsm CreateCertificate/ParseCertificate only as the means to materialise certificates (C09). Unspecified region listed in evidence assumptions.",
             "DESIGN.md §5 C10"),
     "C17": ("exploration",
-            "round-trip and wrong-holder monitors for enveloped data, ground-truth tamper monitors for signed data (library-built RSA and harness-built SM2 incl. reference-signed) and PKCS#12 (SM2, RSA, ECDSA keys, CA chains, third-party fixture bundles from OpenSSL and the JDK incl. both forms of the empty password, file helpers), DER length-boundary windows, per-byte substitution sweeps, held-results re-check",
+            "round-trip and wrong-holder monitors for enveloped data, ground-truth tamper monitors for signed data (library-built RSA and harness-built SM2 incl. reference-signed) and PKCS#12 (SM2, RSA, ECDSA keys, CA chains, third-party fixture bundles from OpenSSL and the JDK incl. both forms of the empty password, file helpers, thousands of key derivations between two decodes of one bundle), DER length-boundary windows, per-byte substitution sweeps, held-results re-check",
             "Envelopes contents for 1..3 SM2 recipients (both content ciphers, both orderings) and RSA recipients and opens them with every recipient, a non-recipient, the wrong key, wrong ordering and a key of the other type; verifies signed data untouched and after content/attribute/signature/signer changes and after every single-byte substitution (must not verify unless content, signed attributes, signature integers and certified key are unchanged); PKCS#12 Encode/DecodeAll/ToPEM with password classes, wrong passwords and byte substitutions (error or same key and certificate).",
             "Trusted: ground-truth contents/keys, /verif/ref SM2 signing, encoding/asn1 mirror structures. CBC-enveloped content has no integrity protection: mutated CBC envelopes are only required not to panic.",
             "DESIGN.md §5 C17"),
@@ -83,12 +83,12 @@ CHECKS = {
             "Trusted: /verif/ref public-key derivation, x/crypto/pbkdf2 + crypto/aes, crypto/x509. Passwords equal up to trailing zero bytes are the same PBKDF2-HMAC password and are skipped.",
             "DESIGN.md §5 C14"),
     "C19": ("exploration",
-            "model-based stream monitor (reference pad/unpad, reference CBC) over scripted sources and write plans with a Read-call budget",
+            "model-based stream monitor (reference pad/unpad, reference CBC) over scripted sources and write plans (incl. fixed sizes around the writer's 1 KiB swap area and scratch buffers overwritten after each Write) with a Read-call budget",
             "Drives PKCS7PaddingReader with scripted sources (one-byte, short non-EOF, zero-byte reads, data+EOF, mid-stream error) x caller buffer sizes x lengths 0..5000 x block sizes 8/16; PKCS7PaddingWriter with write plans 1..8192 and every invalid final-block pattern / unaligned stream; P7BlockEnc/P7BlockDecrypt over CBC(ref SM4), CBC(gmsm SM4), CBC(DES).",
             "Trusted: ref PKCS#7 pad, crypto/cipher CBC, ref SM4.",
             "DESIGN.md §5 C19"),
     "C04": ("exploration",
-            "model-based trace monitor + differential reference model (SM3 transcribed from GM/T 0004) over generated inputs and op sequences, HMAC/PBKDF2 consumers incl. long series on one keyed object",
+            "model-based trace monitor + differential reference model (SM3 transcribed from GM/T 0004) over generated inputs and op sequences, HMAC/PBKDF2 consumers incl. long series on one keyed object, hundreds of kept results re-checked at the end, copy loops through large reused buffers, a 520 MiB stream",
             "Runs the real sm3 package over every message length of the tier's grid, random partitions into 1..8 writes (incl. empty and buffer-recycling writes), exhaustively enumerated op sequences over {Write,Sum(nil),Sum(prefix),Sum(prefix+cap),Reset} to depth 4 (quick) / 5 (thorough) plus random traces to length 8, HMAC/PBKDF2 instantiations and multi-MiB streams; a monitor compares every observable result with a model that remembers the bytes written since Reset and an independent SM3. Held = no divergence on the executions produced.",
             "Trusted: /verif/ref SM3 (validated at start of every run against the GM/T 0004 vectors), Go crypto/hmac and x/crypto/pbkdf2. Sampling by length class, not all contents.",
             "DESIGN.md §5 C04"),
@@ -103,7 +103,7 @@ CHECKS = {
             "Trusted: ref SM4, crypto/cipher CBC/CFB/OFB, ref PKCS#7 pad. Lengths exhaustive; keys/IVs sampled.",
             "DESIGN.md §5 C11"),
     "C12": ("exploration",
-            "differential monitor against crypto/cipher GCM over the reference SM4 (and over gmsm's block / the TLS suite construction), the suite-table record protection through the halfConn hook, tag-sensitivity sweep, canary buffers, buffer-reuse histories",
+            "differential monitor against crypto/cipher GCM over the reference SM4 (and over gmsm's block / the TLS suite construction), the suite-table record protection through the halfConn hook, tag-sensitivity sweep, canary buffers, buffer-reuse histories, thousands of distinct keys followed by the first ones again",
             "Exhaustive |A|x|P| grid 0..80 at |IV|=12, IV lengths 1..64, IVs with 0xff bytes, algebraically constructed IVs whose pre-counter block sits at the 32-bit wrap, inputs to 64 KiB, and a single-bit authentication sweep over key/IV/A/C; ciphertext and tag must equal standard GCM, decryption must return the plaintext of the reference ciphertext, caller memory must be untouched.",
             "Trusted: crypto/cipher generic GCM over ref SM4, pinned by the RFC 8998 A.1 vector at start of run.",
             "DESIGN.md §5 C12"),
